@@ -559,6 +559,9 @@ def fam_files(rng, n, dist):
         a.local_dir(b"downloads", {b"report.txt": b"local report\n", b"r.bin": b"local r\n"})
         a.local_link(b"latest.bin", b"no-such-target.bin")
         a.open((220,))
+        if rng.random() < 0.4:
+            a.local_cmd("active")          # the same cases over active-mode data connections (refusals arrive while listening)
+            dist.add("get-cases:in-active-mode")
         for _ in range(rng.choice([2, 4, 7])):
             if not a.connected:
                 break
